@@ -22,7 +22,7 @@ Print Assumptions C14_cast_spec.
 (* ... and the table read row by row *)
 Theorem C14_cast_rows : forall pf skip o, H1 pf ->
   forall x r t, cast_row pf skip o x r t (cast pf skip o x r t).
-Proof. intros pf skip o Hpf x r t. rewrite (cast_spec_l pf skip o Hpf). apply cast_table_rows. Qed.
+Proof. exact cast_rows_l. Qed.
 Print Assumptions C14_cast_rows.
 
 (* decoding without the flag: every leaf is the identical string ... *)
